@@ -70,7 +70,9 @@ fn render(lines: &[LineT], n: usize, order: &[usize], split: Option<usize>, renu
     let mut out = String::new();
     if deco {
         out.push('\u{feff}');
-        out.push_str("# archivo de prueba\r\n\r\nvector, tipo, src_dst\r\n#META CTE_AREAREF: 1.0\r\n");
+        out.push_str("# archivo de prueba\r\n\r\nvector, tipo, src_dst\r\n   #META CTE_AREAREF: 123.5  \r\n\t#META CTE_KEXP: 0.3\r\n  #CTE_Localizacion: CANARIAS \r\n");
+    } else {
+        out.push_str("#META CTE_AREAREF: 123.5\n#META CTE_KEXP: 0.3\n#CTE_Localizacion: CANARIAS\n");
     }
     for &i in order {
         let l = &lines[i];
@@ -171,6 +173,16 @@ pub fn scenario(u: &Unit) -> String {
         spec(true);
         r.map_err(|e| err_kind(&e).to_string())
     };
+    // the metadata that is read does not depend on the layout either
+    {
+        spec(false);
+        let (ma, mb) = (base_text.parse::<Components>().map(|c| c.meta), new_text.parse::<Components>().map(|c| c.meta));
+        spec(true);
+        if let (Ok(ma), Ok(mb)) = (ma, mb) {
+            let show = |m: &Vec<types::Meta>| m.iter().map(|x| format!("{}={}", x.key, x.value)).collect::<Vec<_>>().join(";");
+            ob("same.metadata", if show(&ma) == show(&mb) { t() } else { f() });
+        }
+    }
     let (a, b) = (run(&base_text, None), run(&new_text, policy.as_deref()));
     match (a, b) {
         (Ok(a), Ok(b)) => {
